@@ -29,7 +29,7 @@ Monus(a, b) == IF a > b THEN a - b ELSE 0
 
 Acc0 == [blocks |-> 0, sizes |-> <<>>, txs |-> 0, ins |-> 0, outs |-> 0, fee |-> 0, volume |-> 0,
          bigVal |-> [v |-> 0, at |-> <<0, 0>>], bigSize |-> [v |-> 0, at |-> <<0, 0>>],
-         types |-> <<>>, first |-> <<>>, gaps |-> <<>>, lastT |-> 0]
+         types |-> <<>>, first |-> <<>>, gaps |-> <<>>, lastT |-> -1]
 
 Init == chain = <<>> /\ cur = <<>> /\ acc = Acc0
 
@@ -56,7 +56,8 @@ TxEffect(a, tx, rew, pos) ==
   IN CountTypes(a1, tx.outs, 1, pos)
 \* effect of the block-level bookkeeping: counters at entry, time gap at exit
 BlockEffect(a, ntx, size) == [a EXCEPT !.blocks = @ + 1, !.txs = @ + ntx, !.sizes = Append(@, size)]
-TimeEffect(a, t) == [a EXCEPT !.gaps = IF a.lastT > 0 THEN Append(@, Monus(t, a.lastT)) ELSE @, !.lastT = t]
+\* a gap for every block but the first of the range (lastT = -1: no block yet; a header timestamp of 0 is a timestamp like any other)
+TimeEffect(a, t) == [a EXCEPT !.gaps = IF a.lastT >= 0 THEN Append(@, Monus(t, a.lastT)) ELSE @, !.lastT = t]
 
 \* on_block entry: block counters
 AccBlock(b) == /\ cur = <<>> /\ Len(chain) < MaxBlocks
